@@ -153,8 +153,9 @@ type Interp struct {
 	inInit   int
 	curRange      *ssa.Range
 	permSite      int
+	goSeq, goCur  int // goroutines started so far / the one running now (0 = not in a goroutine)
 	permInstances int
-	rangeSites    map[*ssa.Range]int
+	rangeSites    map[ssa.Instruction]int // range-over-map and channel-receive sites, numbered in the order of first execution
 	notDir   bool
 	ptrIDs   map[*Value]int
 	reggens  map[*Value]*reggen.Generator
@@ -260,7 +261,7 @@ func NewInterp(w *World, cfg *Config, inputs map[string]uint64) *Interp {
 		VarW: map[string]uint8{}, globals: map[*ssa.Global]*Value{},
 		Reached: map[string]bool{}, FnsSeen: map[*ssa.Function]int{},
 		VFS: map[string]*vfile{}, initDone: map[*ssa.Package]bool{}, Notes: map[string]int{},
-		permSite: -1, rangeSites: map[*ssa.Range]int{},
+		permSite: -1, rangeSites: map[ssa.Instruction]int{},
 	}
 }
 
@@ -779,7 +780,35 @@ func (fr *frame) visit(ins ssa.Instruction) cont {
 		fr.runDefers()
 	case *ssa.Panic:
 		panic(goPanic{v: fr.get(ins.X), site: in.site(), stack: in.stack()})
-	case *ssa.Send, *ssa.Select, *ssa.Go, *ssa.MakeChan:
+	case *ssa.MakeChan:
+		n := in.intArg(fr.get(ins.Size), "makechan-size")
+		if n < 0 || n > 1<<20 {
+			in.rtPanic("makechan: size out of range")
+		}
+		fr.set(ins, &Chan{cap: n})
+	case *ssa.Go:
+		// Fork-join model: the goroutine runs to completion right here (its body is atomic);
+		// what it sends is queued; the ORDER in which results of different goroutines are
+		// received is symbolic (Interp.recv). A goroutine that would block is refused.
+		fn, args := fr.prepareCall(&ins.Call)
+		in.goSeq++
+		saved := in.goCur
+		in.goCur = in.goSeq
+		in.Notes["goroutine-run-atomically"]++
+		in.call(fn, args)
+		in.goCur = saved
+		in.cur = fr
+	case *ssa.Send:
+		ch, _ := fr.get(ins.Chan).(*Chan)
+		if ch == nil {
+			in.unsupported("send on a nil channel (blocks forever)")
+		}
+		if len(ch.buf) >= ch.cap {
+			in.unsupported("channel send that would block (outside the fork-join model)")
+		}
+		ch.buf = append(ch.buf, copyVal(fr.get(ins.X)))
+		ch.senders = append(ch.senders, in.goCur)
+	case *ssa.Select:
 		in.unsupported("concurrency instruction %T", ins)
 	case *ssa.Store:
 		p := fr.get(ins.Addr).(*Value)
